@@ -302,14 +302,4 @@ func ZZ_C12_confine_par() {
 		return
 	}
 	p.confined(m, scopes, aud)
-	// the handler's own consultations (after those of the request validation)
-	n := 0
-	for _, q := range p.scope[m.s:] {
-		if len(scopes) > 0 && q.needle == scopes[0] {
-			n++
-		}
-	}
-	if len(scopes) > 0 {
-		zz.Assert(n >= 2, "PAR handler consults the policy itself (in addition to the request validation)")
-	}
 }
